@@ -11,11 +11,11 @@ import (
 // constEnv holds the integer / string constants of every package, evaluated
 // with Go's iota rules. Names are qualified "pkg.Name".
 type constEnv struct {
-	ints    map[string]int64
-	strs    map[string]string
-	order   map[string][]string // per package, declaration order of int constants
-	typeOf  map[string]string   // declared type name of a constant ("" if untyped)
-	curPkg  string
+	ints   map[string]int64
+	strs   map[string]string
+	order  map[string][]string // per package, declaration order of int constants
+	typeOf map[string]string   // declared type name of a constant ("" if untyped)
+	curPkg string
 }
 
 func newConstEnv() *constEnv {
@@ -89,6 +89,20 @@ func exprString(x ast.Expr) string {
 		return "[]" + exprString(t.Elt)
 	case *ast.BasicLit:
 		return t.Value
+	case *ast.ParenExpr:
+		return "(" + exprString(t.X) + ")"
+	case *ast.UnaryExpr:
+		return t.Op.String() + exprString(t.X)
+	case *ast.BinaryExpr:
+		return exprString(t.X) + " " + t.Op.String() + " " + exprString(t.Y)
+	case *ast.IndexExpr:
+		return exprString(t.X) + "[" + exprString(t.Index) + "]"
+	case *ast.CallExpr:
+		args := make([]string, len(t.Args))
+		for i, a := range t.Args {
+			args[i] = exprString(a)
+		}
+		return exprString(t.Fun) + "(" + strings.Join(args, ", ") + ")"
 	}
 	return fmt.Sprintf("%T", x)
 }
